@@ -77,7 +77,11 @@ func (g *RoomGen) refs(ids []string) interface{} {
 // Mk builds an event from explicit fields. content may be any JSON-marshalable value or json.RawMessage;
 // stateKey nil = not a state event. extra are additional top-level members. Returns nil if the library refuses it.
 func (g *RoomGen) Mk(typ string, sender string, stateKey *string, content interface{}, prev, auth []string, extra map[string]interface{}) *Ev {
-	id := g.nextID(domainOf(sender))
+	return g.MkID(g.nextID(domainOf(sender)), typ, sender, stateKey, content, prev, auth, extra)
+}
+
+// MkID is Mk with a chosen event ID (the trusted constructors take the ID as given: two different events can carry one ID).
+func (g *RoomGen) MkID(id string, typ string, sender string, stateKey *string, content interface{}, prev, auth []string, extra map[string]interface{}) *Ev {
 	m := map[string]interface{}{
 		"type": typ, "sender": sender, "room_id": g.RoomID, "content": content,
 		"origin_server_ts": 1000 + g.n, "depth": g.n,
